@@ -9,6 +9,7 @@
                    "E <kind> | <message>"               an exception object came back
                  and, after every E (and every 50th V), "P <digest>" = output of the probe program evaluated in
                  the SAME context ("P0 <digest>" once at the start is the fresh-context reference)          */
+#define _GNU_SOURCE
 #include <chibi/eval.h>
 #include <signal.h>
 #include <stdio.h>
@@ -75,6 +76,7 @@ static void print_exn (sexp ctx, sexp e) {
   fprintf(out, "E %s | %.120s\n", kind, sexp_stringp(m) ? sexp_string_data(m) : "?");
 }
 
+static long slurp_len;
 static char *slurp (const char *file) {
   FILE *f = fopen(file, "r");
   long n; char *buf;
@@ -83,6 +85,7 @@ static char *slurp (const char *file) {
   buf = malloc(n + 1);
   if (fread(buf, 1, n, f) != (size_t)n) { perror("read"); exit(2); }
   buf[n] = 0;
+  slurp_len = n;
   fclose(f);
   return buf;
 }
@@ -114,7 +117,7 @@ static void run_probe (sexp ctx, const char *probe, const char *tag) {
 }
 
 int main (int argc, char **argv) {
-  char *text, *p, *end;
+  char *text, *text_end, *p, *end;
   long skip = 0, item_ms = 3000, idx = 0, nvals = 0;
   sexp_uint_t heap = 4*1024*1024, maxheap = 256*1024*1024;
   const char *probe = default_probe;
@@ -129,6 +132,7 @@ int main (int argc, char **argv) {
     else if (!strcmp(argv[i], "--probe-file")) probe = slurp(argv[i+1]);
   }
   text = slurp(argv[1]);
+  text_end = text + slurp_len;
   out_fd = dup(1);
   out = fdopen(out_fd, "w");
   item_ms_g = item_ms;
@@ -143,21 +147,23 @@ int main (int argc, char **argv) {
     sexp_gc_preserve4(ctx, res, str, port, env);
     setvbuf(out, NULL, _IOLBF, 0);
     run_probe(ctx, probe, "P0");
-    for (p = text; (p = strstr(p, "#ITEM ")) != NULL; ) {
+    /* item texts may contain NUL bytes: search with explicit lengths */
+    for (p = text; (p = memmem(p, text_end - p, "#ITEM ", 6)) != NULL; ) {
       char id[64] = "", mode[16] = "eval";
       char *body, saved;
       sscanf(p, "#ITEM %63s %15s", id, mode);
-      body = strchr(p, '\n');
+      body = memchr(p, '\n', text_end - p);
       if (!body) break;
       body++;
-      end = strstr(body, "\n#END");
+      end = memmem(body, text_end - body, "\n#END", 5);
       if (!end) break;
       p = end + 5;
       if (idx++ < skip) continue;
       saved = *end; *end = 0;
       fprintf(out, "#%s\n", id); fflush(out);
       interrupted = 0;
-      arm(item_ms);
+      item_ms_g = strcmp(mode, "setup") ? item_ms : 120000;    /* imports are slow on the sanitized build */
+      arm(item_ms_g);
       if (!strcmp(mode, "read")) {
         str = sexp_c_string(ctx, body, end - body);
         port = sexp_open_input_string(ctx, str);
